@@ -19,19 +19,18 @@ theorem SL.mono {D : Int} {a b : List Char} {P Q : List Token → Prop} (h : SL 
 
 theorem step_selector (ih : LexAll f) (D : Int) (hD : 0 ≤ D) (inp : List Char) (sel : Spec.CSelector)
     (rest : List Char) (h : Spec.selector (f + 1) inp = some (sel, rest)) (hin : Spec.skipS inp = inp)
-    (hnk : nkSel sel = true) (hf : Cs.Follow rest) : SL D inp (FSelShape sel) rest := by
+    (hf : Cs.Follow rest) : SL D inp (FSelShape sel) rest := by
   cases inp with
   | nil => rw [selector_nil] at h; cases h
   | cons c t =>
     by_cases hc : c = '?'
     · subst hc
       obtain ⟨e, hlo, rfl⟩ := selector_filter_inv h
-      have hnk' : nkExpr e = true := by simpa [nkSel] using hnk
       intro l toks br hs
       obtain ⟨l1, pre1, h1, e1⟩ := hs.step_bracketed
       rw [hin] at h1
       obtain ⟨l2, s2, h2⟩ := lexBracketed_filter h1
-      have b := (ih.logicalOr (D + 1) (by omega) (Spec.skipS t) e rest hlo (Cs.skipS_idem t) hnk'
+      have b := (ih.logicalOr (D + 1) (by omega) (Spec.skipS t) e rest hlo (Cs.skipS_idem t)
         (.of_follow hf)).of_skipS
       obtain ⟨s3, l3, ts, r3, hv3, p⟩ := b .filter l2 _ br (.of_filter h2)
       exact ⟨s3, l3, ⟨.filter, ['?'], pre1.length⟩ :: ts, (Reach.one (e1.trans s2)).trans r3,
@@ -40,35 +39,33 @@ theorem step_selector (ih : LexAll f) (D : Int) (hD : 0 ≤ D) (inp : List Char)
       exact (SL.of_FBL (FBL_selector hin h hff hf)).mono (fun ts hts => .plain sel ts hts)
 
 theorem step_moreSelectors (ih : LexAll f) (D : Int) (hD : 0 ≤ D) (inp : List Char) (ss : List Spec.CSelector)
-    (rest r5 : List Char) (h : Spec.moreSelectors (f + 1) inp = some (ss, rest)) (hnk : nkSels ss = true)
+    (rest r5 : List Char) (h : Spec.moreSelectors (f + 1) inp = some (ss, rest))
     (hc : Spec.skipS rest = ']' :: r5) : ML D inp (FMoreShape ss) rest := by
   rcases moreSelectors_inv h with ⟨_, rfl, rfl⟩ | ⟨u, s, r2, ss', hu, hs, hm, rfl⟩
   · intro s l toks i br hv
     exact ⟨s, l, [], .refl, hv, .nil⟩
   · intro s0 l toks i br hv
     obtain ⟨l1, k, r1, hw1⟩ := hv.comma hD hu
-    have hnk' : nkSel s = true ∧ nkSels ss' = true := by simpa [nkSels] using hnk
-    have b2 := (ih.selector D hD (Spec.skipS u) s r2 hs (Cs.skipS_idem u) hnk'.1
+    have b2 := (ih.selector D hD (Spec.skipS u) s r2 hs (Cs.skipS_idem u)
       (Cs.more_follow hm hc)).congr_left (Cs.skipS_idem u).symm
     obtain ⟨s2, l2, t1, r2', hv2, p1⟩ := b2 l1 _ _ hw1
-    obtain ⟨s3, l3, t2, r3', hv3, p2⟩ := ih.moreSelectors D hD r2 ss' rest r5 hm hnk'.2 hc s2 l2 _ i br hv2
+    obtain ⟨s3, l3, t2, r3', hv3, p2⟩ := ih.moreSelectors D hD r2 ss' rest r5 hm hc s2 l2 _ i br hv2
     exact ⟨s3, l3, ⟨.comma, [','], k⟩ :: (t1 ++ t2), (r1.trans r2').trans r3', by simpa using hv3,
       .cons s ss' k t1 t2 p1 p2⟩
 
 theorem step_bracketed (ih : LexAll f) (D : Int) (hD : 0 ≤ D) (r : List Char) (sels : List Spec.CSelector)
     (fl : Bool) (rest : List Char) (h : Spec.bracketed (f + 1) ('[' :: r) = some (sels, fl, rest))
-    (hnk : nkSels sels = true) (l : Lexer) (pre : List Char) (toks : List Token) (br : List (Char × Nat))
+    (l : Lexer) (pre : List Char) (toks : List Token) (br : List (Char × Nat))
     (i : Nat) (hst : FSt D l pre [] r toks (('[', i) :: br)) :
     ∃ l' pre' ts k, Reach .bracketed l .segment l' ∧
       FSt D l' pre' [] rest (⟨.rbracket, [']'], k⟩ :: (ts.reverse ++ toks)) br ∧ FSelsShape sels ts := by
   obtain ⟨t, s, r2, ss, r3, et, hs, hm, hcl, rfl⟩ := bracketed_inv h
   simp only [List.cons.injEq, true_and] at et
   subst et
-  have hnk' : nkSel s = true ∧ nkSels ss = true := by simpa [nkSels] using hnk
-  have b1 := (ih.selector D hD (Spec.skipS r) s r2 hs (Cs.skipS_idem r) hnk'.1
+  have b1 := (ih.selector D hD (Spec.skipS r) s r2 hs (Cs.skipS_idem r)
     (Cs.more_follow hm hcl)).congr_left (Cs.skipS_idem r).symm
   obtain ⟨s1, l1, t1, r1, hv1, p1⟩ := b1 l toks _ (.of_FSt hst)
-  obtain ⟨s2, l2, t2, r2', hv2, p2⟩ := ih.moreSelectors D hD r2 ss r3 rest hm hnk'.2 hcl s1 l1 _ i br hv1
+  obtain ⟨s2, l2, t2, r2', hv2, p2⟩ := ih.moreSelectors D hD r2 ss r3 rest hm hcl s1 l1 _ i br hv1
   obtain ⟨l3, pre3, k, r3', hst3⟩ := hv2.close hD hcl
   exact ⟨l3, pre3, t1 ++ t2, k, (r1.trans r2').trans r3', by simpa using hst3, .mk s ss t1 t2 p1 p2⟩
 
@@ -82,7 +79,7 @@ theorem segment_nil (f : Nat) : Spec.segment f [] = none := by
     all_goals (intro r e; cases e)
 
 theorem step_segment (ih : LexAll f) (D : Int) (hD : 0 ≤ D) (inp : List Char) (seg : Spec.CSegment)
-    (rest : List Char) (h : Spec.segment (f + 1) inp = some (seg, rest)) (hnk : nkSegs [seg] = true)
+    (rest : List Char) (h : Spec.segment (f + 1) inp = some (seg, rest))
     (l : Lexer) (pre : List Char) (toks : List Token) (br : List (Char × Nat))
     (hst : FSt D l pre [] inp toks br) :
     ∃ lm sm l' pre' ts, Impl.step .segment l = .ok (lm, some sm) ∧ Reach sm lm .segment l' ∧
@@ -98,14 +95,13 @@ theorem step_segment (ih : LexAll f) (D : Int) (hD : 0 ≤ D) (inp : List Char) 
     exact ⟨_, _, _, _, [_, _], s1, .one s2, by simpa using h2, .descWild _ _⟩
   | descBrack t sels fl e1 hbr e2 =>
     subst e1 e2
-    have hnk' : nkSels sels = true := by simpa [nkSegs] using hnk
     have s1 := lexSegment_dotdot hst
     have h1 := hst.adv.adv.emit .doubleDot
     simp only [List.nil_append, List.cons_append] at h1
     have s2 := lexDescendant_lbracket h1
     have h2 := (h1.adv.emit .lbracket).pushBracket '[' (((l.adv.adv.emit .doubleDot).adv.emit .lbracket).pos - 1)
     simp only [List.nil_append] at h2
-    obtain ⟨l3, pre3, ts, k, r3, h3, hsh⟩ := ih.bracketed D hD t sels fl rest hbr hnk' _ _ _ br _ h2
+    obtain ⟨l3, pre3, ts, k, r3, h3, hsh⟩ := ih.bracketed D hD t sels fl rest hbr _ _ _ br _ h2
     refine ⟨_, _, l3, pre3, ⟨.doubleDot, ['.', '.'], pre.length⟩ ::
       ⟨.lbracket, ['['], (pre ++ ['.', '.']).length⟩ :: (ts ++ [⟨.rbracket, [']'], k⟩]), s1, .step s2 r3, ?_,
       .descBrack sels ts _ _ _ hsh⟩
@@ -144,21 +140,16 @@ theorem step_segment (ih : LexAll f) (D : Int) (hD : 0 ≤ D) (inp : List Char) 
     exact ⟨_, _, l2, _, [_], s1, .one s2, by simpa using h2, .dotName _ _⟩
   | brack t sels fl e1 hbr e2 =>
     subst e1 e2
-    have hnk' : nkSels sels = true := by simpa [nkSegs] using hnk
     have s1 := lexSegment_lbracket hst
     have h2 := (hst.adv.emit .lbracket).pushBracket '[' ((l.adv.emit .lbracket).pos - 1)
     simp only [List.nil_append] at h2
-    obtain ⟨l3, pre3, ts, k, r3, h3, hsh⟩ := ih.bracketed D hD t sels fl rest hbr hnk' _ _ _ br _ h2
+    obtain ⟨l3, pre3, ts, k, r3, h3, hsh⟩ := ih.bracketed D hD t sels fl rest hbr _ _ _ br _ h2
     refine ⟨_, _, l3, pre3, ⟨.lbracket, ['['], pre.length⟩ :: (ts ++ [⟨.rbracket, [']'], k⟩]), s1, r3, ?_,
       .brack sels fl ts _ _ hsh⟩
     simpa using h3
 
-theorem nkSegs_cons {seg : Spec.CSegment} {segs : List Spec.CSegment} (h : nkSegs (seg :: segs) = true) :
-    nkSegs [seg] = true ∧ nkSegs segs = true := by
-  cases seg <;> simpa [nkSegs] using h
-
 theorem step_segments (ih : LexAll f) (D : Int) (hD : 0 ≤ D) (inp : List Char) (segs : List Spec.CSegment)
-    (rest : List Char) (h : Spec.segments (f + 1) inp = some (segs, rest)) (hnk : nkSegs segs = true)
+    (rest : List Char) (h : Spec.segments (f + 1) inp = some (segs, rest))
     (l : Lexer) (pre : List Char) (toks : List Token) (br : List (Char × Nat))
     (hst : FSt D l pre [] inp toks br) :
     ∃ l' pre' ts, Reach .segment l .segment l' ∧ FSt D l' pre' [] rest (ts.reverse ++ toks) br ∧
@@ -170,9 +161,8 @@ theorem step_segments (ih : LexAll f) (D : Int) (hD : 0 ≤ D) (inp : List Char)
       rw [e, segment_nil] at hseg
       cases hseg
     obtain ⟨l1, pre1, h1, e1⟩ := step_segment_ws hst hne
-    obtain ⟨hk1, hk2⟩ := nkSegs_cons hnk
-    obtain ⟨lm, sm, l2, pre2, ts, s1, r1', h2, hsh⟩ := ih.segment D hD _ seg r1 hseg hk1 l1 pre1 toks br h1
-    obtain ⟨l3, pre3, ts', r3, h3, hsh'⟩ := ih.segments D hD r1 segs' rest hsegs hk2 l2 pre2 _ br h2
+    obtain ⟨lm, sm, l2, pre2, ts, s1, r1', h2, hsh⟩ := ih.segment D hD _ seg r1 hseg l1 pre1 toks br h1
+    obtain ⟨l3, pre3, ts', r3, h3, hsh'⟩ := ih.segments D hD r1 segs' rest hsegs l2 pre2 _ br h2
     exact ⟨l3, pre3, ts ++ ts', .step (e1.trans s1) (r1'.trans r3), by simpa using h3, .cons _ _ _ _ hsh hsh'⟩
 
 /-! ### the induction -/
